@@ -514,6 +514,19 @@ def check_macros(ctx, n):
         if got != want:
             ctx.report("C08:redefined-after-undef", "a macro defined again after #undef is not expanded by its new definition",
                        {"kind": "counterexample", "input": {"lines": lines, "pp_defs": {}}, "implementation": got, "oracle": want})
+    # initial definitions whose values are numbers or booleans, as a configuration file may give them (fixed: TypeError, the file lost)
+    for defs, want in (({"N": 4}, (["#if N > 1", "x = 4", "#endif", "y = 4"], [])), ({"N": 0}, (["#if N > 1", "x = 0", "#endif", "y = 0"], [[1, 3]])),
+                       ({"F": True}, (["#if N > 1", "x = N", "#endif", "y = N"], [[1, 3]]))):
+        lines = ["#if N > 1", "x = N", "#endif", "y = N"]
+        try:
+            out, skips, _, _ = preprocess_file(list(lines), pp_defs=dict(defs))
+            got = (out, [list(x) for x in skips])
+        except Exception as ex:      # noqa: BLE001
+            got = repr(ex)
+        ctx.count(("macro-nonstring", repr(defs)), True)
+        if got != want:
+            ctx.report("C08:non-string-definition", "initial definitions with a number or boolean as value are not used as text",
+                       {"kind": "counterexample", "input": {"lines": lines, "pp_defs": defs}, "implementation": got, "oracle": want})
     # regression (fixed): several calls of a function-like macro on one line
     lines = ["#define F(a,b) (a+b)", "x = F(1,2) * F(3,4)"]
     out, _, _, _ = preprocess_file(list(lines), pp_defs={})
